@@ -65,6 +65,7 @@ class AsyncioShim:
 
 
 SHIM = AsyncioShim()
+STATUS_WAIT_HOOK: Any = None
 
 
 class WorkerCrash(Exception):
@@ -125,6 +126,8 @@ def run_choice(
             y = coros[wid].send(None)
             while isinstance(y, Suspend) and y.kind == "status-wait":
                 # the bounded wait for a late result is not a scheduling point (the node stays occupied)
+                if STATUS_WAIT_HOOK is not None:
+                    STATUS_WAIT_HOOK(wid)
                 y = coros[wid].send(None)
         except StopIteration:
             live.remove(wid)
@@ -202,6 +205,8 @@ def run_timed(
         try:
             y = coros[wid].send(None)
             while isinstance(y, Suspend) and y.kind == "status-wait":
+                if STATUS_WAIT_HOOK is not None:
+                    STATUS_WAIT_HOOK(wid)
                 y = coros[wid].send(None)
         except StopIteration:
             live.remove(wid)
